@@ -23,6 +23,9 @@ func checkC16(r *Run) {
 	ruleConsoleOnce(r, p)
 	ruleConsoleQuote(r, p)
 	ruleConsoleTimeLocation(r, p)
+	ruleBufferPoolClean(r, p, []string{""}) // same event + configuration → same bytes: no stale line left in the pooled buffer
+	ruleLevelTables(r, p)                   // the level part is rendered from ParseLevel of the event's level text
+	ruleConsoleMarshal(r, p)
 	r.Floor("TIMELOC", 2)
 	r.Floor("QUOTE", 4)
 	r.Floor("A22", 3)
